@@ -360,8 +360,12 @@ impl G1Affine {
     /// `from_uncompressed()` instead.
     fn from_uncompressed_unchecked(bytes: &[u8; UNCOMPRESSED_SIZE]) -> CtOption<Self> {
         let mut raw = blst_p1_affine::default();
-        let success =
-            unsafe { blst_p1_deserialize(&mut raw, bytes.as_ptr()) == BLST_ERROR::BLST_SUCCESS };
+        // `blst_p1_deserialize` dispatches on the compression flag: when it is set, it
+        // decompresses the first half of the input and ignores the rest. Such an input is not
+        // an uncompressed encoding.
+        let uncompressed_form = bytes[0] & 0x80 == 0;
+        let success = uncompressed_form
+            && unsafe { blst_p1_deserialize(&mut raw, bytes.as_ptr()) == BLST_ERROR::BLST_SUCCESS };
         CtOption::new(G1Affine(raw), Choice::from(success as u8))
     }
 
